@@ -1012,6 +1012,20 @@ func init() {
 		"path/filepath.Join":        fFilepathJoin,
 		"unicode.IsLower":           fIsLower,
 		"regexp.MustCompile":        fRegexpMustCompile,
+		"reflect.DeepEqual": func(m *Machine, fr *frame, pos token.Pos, args []value) value {
+			return m.unsym(m.deepEqTerm(args[0], args[1], true), types.Bool)
+		},
+		"os.Exit": func(m *Machine, fr *frame, pos token.Pos, args []value) value {
+			code := int(m.concretizeInt(args[0], 0, 255))
+			m.exitCode = &code
+			panic(pathEnd{kind: "exit", msg: fmt.Sprintf("os.Exit(%d)", code)})
+		},
+		"fmt.Fprintf": func(m *Machine, fr *frame, pos token.Pos, args []value) value {
+			return tuple{0, iface{}}
+		},
+		"fmt.Printf": func(m *Machine, fr *frame, pos token.Pos, args []value) value {
+			return tuple{0, iface{}}
+		},
 		"golang.org/x/exp/utf8string.NewString":             fUtf8NewString,
 		"(*golang.org/x/exp/utf8string.String).RuneCount":   fUtf8RuneCount,
 		"(*golang.org/x/exp/utf8string.String).At":          fUtf8At,
